@@ -277,7 +277,20 @@ def gen(rng, idx, tier):
             drop = set(rng.sample(kerned_tags, rng.randint(1, max(1, len(kerned_tags) - 1))))
             lsys = [("DFLT", "dflt")] + [(t, "dflt") for t in all_tags if t not in drop]
     text, rules = S.gsub_alternates(rng, desc, lsys, given_order=given_order)
+    placeholders = []
+    if lsys and rng.random() < 0.15:
+        # comment-only '# Automatic Code' placeholder blocks right below the languagesystem list
+        # (where the generated features are to go): they must still see EVERY declared system
+        lines = text.split("\n")
+        last = max((i for i, l in enumerate(lines) if l.startswith("languagesystem")), default=None)
+        if last is not None:
+            placeholders = rng.sample(["kern", "mark", "mkmk", "curs"], rng.randint(1, 3))
+            rng.shuffle(placeholders)
+            blocks = ["feature %s {\n    # Automatic Code\n} %s;" % (t, t) for t in placeholders]
+            lines[last + 1:last + 1] = blocks
+            text = "\n".join(lines)
     return {
+        "placeholders": placeholders,
         "stratum": stratum,
         "layout": layout,
         "lib": rng.choice(["defcon", "ufoLib2"]),
@@ -329,6 +342,9 @@ def run(case):
         counters[k] = counters.get(k, 0) + n
         if stratum == "default":
             counters["default_" + k] = counters.get("default_" + k, 0) + n
+
+    if case.get("placeholders"):
+        bump("fonts_with_placeholder_blocks_below_the_languagesystems")
 
     bump("cases")
     if case.get("stray_digits"):
